@@ -22,6 +22,6 @@ def ops (field : String) : List (String × String × Bool) :=
 /-- the id table: reserved in `setContext`, released in `cancelLocked` (delivery, unassigned
 method) and `stopLocked`; `CancelRequest` does not write it; every access under the mutex -/
 theorem used_writers :
-    ops "s.used" = [("setContext", "assign", true), ("stopLocked", "delete", true), ("cancelLocked", "delete", true)] := by decide
+    ops "s.used" = [("cancelLocked", "delete", true), ("setContext", "assign", true), ("stopLocked", "delete", true)] := by decide
 
 end Jrpc.Tie.C06
